@@ -38,6 +38,7 @@ type Op struct {
 	Arr      int             `json:"arr,omitempty"`    // readarr: array index
 	Wrap     string          `json:"wrap,omitempty"`   // reader: "", wt, seek, len, rat, bufio, osfile (stream based); bytes, strings, buffer, section, osfile-real (standard types, no fault)
 	Reuse    bool            `json:"reuse,omitempty"`  // detect: the caller reuses one buffer (same address) for successive inputs
+	StatSize int             `json:"stat_size,omitempty"` // file / osfile: Stat reports StatSize-1 bytes (0: the accurate size)
 }
 
 func (o Op) String() string {
@@ -56,6 +57,12 @@ func (o Op) String() string {
 	}
 	if o.Name != "" {
 		s += " " + o.Name
+	}
+	if o.StatSize > 0 {
+		s += fmt.Sprintf(" stat-size=%d", o.StatSize-1)
+	}
+	if o.FileKind != "" {
+		s += " " + o.FileKind
 	}
 	return s
 }
@@ -142,6 +149,9 @@ type World struct {
 	// They run sequentially, after their parent was registered, so each one is a mismatch.
 	PreSkipped []*model.Ext
 }
+
+// procFile is a stable kernel-generated file (procfs reports size 0 for it).
+const procFile = "/proc/version"
 
 const canary = 0xC3
 
@@ -236,7 +246,7 @@ func Materialise(p *Plan, realDir string) *World {
 			}
 			switch op.FileKind {
 			case "":
-				simio.FS[simPath(ti, oi)] = &simio.FileSpec{Data: x, D: d}
+				simio.FS[simPath(ti, oi)] = &simio.FileSpec{Data: x, D: d, StatSize: op.StatSize}
 			case "enoent":
 				simio.FS[simPath(ti, oi)] = &simio.FileSpec{OpenErr: syscall.ENOENT}
 			case "eacces":
@@ -246,6 +256,13 @@ func Materialise(p *Plan, realDir string) *World {
 			case "real":
 				if realDir != "" {
 					_ = stdos.WriteFile(w.realPath(ti, oi), x, 0o644)
+				}
+			case "real-proc":
+				// a kernel-generated file: regular, size 0 according to Stat, content nevertheless
+				if b, err := stdos.ReadFile(procFile); err == nil {
+					w.Bytes[ti][oi] = b
+				} else {
+					w.Bytes[ti][oi] = nil
 				}
 			case "real-dir":
 				if realDir != "" {
@@ -543,6 +560,8 @@ func (w *World) Exec(t *core.Task, ti, oi int) {
 			path = w.realPath(ti, oi)
 		case "real-missing":
 			path = filepath.Join(w.RealDir, "does-not-exist", fmt.Sprintf("t%do%d", ti, oi))
+		case "real-proc":
+			path = procFile
 		}
 		t.OpInvoke(oi, tag)
 		m, err := mimetype.DetectFile(path)
